@@ -20,7 +20,9 @@ BASES = {"char": ("char", True, 8), "uchar": ("unsigned char", False, 8), "short
          "int": ("int", True, 32), "uint": ("unsigned", False, 32), "llong": ("long long", True, 64), "ullong": ("unsigned long long", False, 64),
          "bool": ("_Bool", False, 1), "enum": ("enum bfe", False, 32),
          # typedefs whose alignment is smaller than their size (the straddle rule must use the alignment, not the size)
-         "ull4": ("ull4", False, 64), "ll2": ("ll2", True, 64), "uint2": ("uint2", False, 32)}
+         "ull4": ("ull4", False, 64), "ll2": ("ll2", True, 64), "uint2": ("uint2", False, 32),
+         # the declared type written as typeof(constant expression): the constant is not the width
+         "tof3u": ("__typeof__(3u)", False, 32), "tof9s": ("__typeof__((unsigned short)9)", False, 16)}
 TYPEDEFS = ("typedef unsigned long long ull4 __attribute__((aligned(4))); typedef long long ll2 __attribute__((aligned(2))); "
             "typedef unsigned uint2 __attribute__((aligned(2)));\n")
 WIDTHS = [1, 3, 7, 8, 9, 15, 16, 17, 31, 32, 33, 63, 64]
@@ -127,6 +129,12 @@ def family(tier, seed):
         for w in widths_for(b):
             for attr, _, _, _ in ATTRS:
                 add("struct", attr, [("bf", b, w, "f0")])
+                if b.startswith("tof"):
+                    # typeof-spelled types: the field alone and next to a second one (placement after a plain member is the
+                    # subject of the other bases)
+                    if attr in ("plain", "packed"):
+                        add("struct", attr, [("bf", b, w, "f0"), ("bf", b, max(1, w // 2), "f1")])
+                    continue
                 add("struct", attr, [("plain", "char", "pre"), ("bf", b, w, "f0"), ("plain", "int", "post")])
                 if attr in ("plain", "packed", "pp2"):
                     add("union", attr, [("bf", b, w, "f0"), ("plain", "int", "other")])
